@@ -26,7 +26,7 @@ func replay(path string) int {
 		fmt.Println(err)
 		return 2
 	}
-	os.Setenv("VERIF_ROOT", os.TempDir()+"/verif-replay") // do not overwrite evidence or artefacts
+	os.Setenv("VERIF_OUT", os.TempDir()+"/verif-replay") // do not overwrite evidence or artefacts
 	c := doc.Violation.Case
 	vec, hasVec := c["vector"].(string)
 	dec, hasDec := c["decoder"].(string)
